@@ -28,6 +28,11 @@ def CLO(n): return ('CLO', n)
 def TUP(*args): return ('AGG', 'tuple', None, args)
 def FN(suffix): return ('FN', suffix)
 def ALT(*ps): return ('ALT', ps)
+def VF(p, variant): return ('VF', p, variant)
+def ERRP(p):
+    """the failure of X handed on to the caller: `Err(e)` with e the error of X (match / map / and_then spelling) or `X?` (which
+    passes e through From — the identity unless the error types differ, and then the crate's conversion table, C03 R3.4 / C14)"""
+    return ('ALT', (('AGG', 'Result', 'Err', (('VF', p, 'Err'),)), ('C', 'FromResidual::from_residual', (('VF', ('C', 'Try::branch', (p,)), 'Break'),))))
 
 
 def unref(t):
@@ -118,6 +123,8 @@ def match(p, t, env):
                 env.update(e2)
                 return True
         return False
+    if k == 'VF':
+        return t[0] == 'vfield' and t[2] == p[2] and match(p[1], t[1], env)
     if k == 'CLO':
         if t[0] == 'agg' and t[2] is None and "{closure" in str(t[1]):
             env[p[1]] = t
